@@ -395,7 +395,29 @@ pub fn run(ctx: &mut Ctx) {
             10 => {
                 // base58: version byte of no network / another network's inner prefix in a blinded address
                 let mut p = vec![];
-                if blinded {
+                if blinded && ctx.rng.gen_range(0..2) == 0 {
+                    // blinded layout (55 bytes) with a valid inner prefix and key, but the outer byte is
+                    // not this network's blinded prefix: its own p2pkh/p2sh byte, another network's
+                    // blinded prefix, or a byte no network uses
+                    let other = &NETS[(net + 1 + ctx.rng.gen_range(0..2usize)) % 3];
+                    let outer = match ctx.rng.gen_range(0..4) {
+                        0 => nt.p2pkh,
+                        1 => nt.p2sh,
+                        2 => other.blinded,
+                        _ => loop {
+                            let b: u8 = ctx.rng.gen();
+                            if !NETS.iter().any(|n| n.p2pkh == b || n.p2sh == b || n.blinded == b) {
+                                break b;
+                            }
+                        },
+                    };
+                    p.push(outer);
+                    p.push(if ctx.rng.gen_range(0..2) == 0 { nt.p2pkh } else { nt.p2sh });
+                    p.extend_from_slice(&key);
+                    p.extend_from_slice(&gen::arr20(&mut ctx.rng));
+                    check_invalid(ctx, &addr::base58check(&p), "base58-blinded-layout-with-foreign-outer-prefix");
+                    return;
+                } else if blinded {
                     let other = &NETS[(net + 1) % 3];
                     p.push(nt.blinded);
                     p.push(if ctx.rng.gen_range(0..2) == 0 { other.p2pkh } else { ctx.rng.gen() });
